@@ -169,8 +169,12 @@ Definition verdict_std (c : ncase) : N :=
                | Some ia => optN_eqb (rend_delivered rendv) (Some ia)
                | None => true
                end in
-  (* completeness: what the reference router delivers, the implementation delivers *)
-  let o5 := match rend_delivered rendv with
+  (* completeness: what the reference router delivers, the implementation delivers -- for paths
+     of at most 64 hop fields (beyond, the implementation refuses to advance the 6-bit CurrHF
+     pointer past 63; the structural reference router has no encoding limit; see the
+     hypothesis of [Props_C13.sdk_complete_wrt_ref]) *)
+  let o5 := (64 <? length (c_hops c))%nat ||
+            match rend_delivered rendv with
             | Some ia => optN_eqb (delivered_at itr) (Some ia)
             | None => true
             end in
